@@ -1,5 +1,5 @@
 //! C13 — polynomial helpers against the definitional reference R2, exhaustively over all
-//! coefficient vectors of length ≤ 4 (thorough: ≤ 5) over a four-letter alphabet, for every
+//! coefficient vectors of length ≤ 4 (thorough: ≤ 7, extension fields ≤ 5) over a four-letter alphabet, for every
 //! supported field and extension.
 
 use mck::{json, Args, Report, Violation};
@@ -88,6 +88,16 @@ fn vectors<E: Copy>(alpha: &[E], maxlen: usize) -> Vec<Vec<E>> {
 fn sweep<E: FieldElement>(name: &str, alpha: &[E], maxlen: usize, pair_len: usize) -> Sweep {
     let mut s = Sweep { evals: 0, viol: vec![], more: vec![] };
     let z = W(E::ZERO);
+    // fields with redundant internal representations: a second representation of 0 and of 1 join the
+    // alphabet (equal values, different bytes), so every function also sees them in every position
+    let mut alpha_v: Vec<E> = alpha.to_vec();
+    for e in [E::ZERO, E::ONE] {
+        if let Some(t) = crate::fields::twin(e) {
+            alpha_v.push(t);
+        }
+    }
+    let (maxlen, pair_len) = if alpha_v.len() > alpha.len() { (maxlen.min(6), pair_len.min(4)) } else { (maxlen, pair_len) };
+    let alpha: &[E] = &alpha_v;
     let polys = vectors(alpha, maxlen);
     let small = vectors(alpha, pair_len);
     macro_rules! guard {
@@ -280,7 +290,9 @@ fn sweep<E: FieldElement>(name: &str, alpha: &[E], maxlen: usize, pair_len: usiz
 pub fn run(args: &Args) {
     let mut report = Report::new(args, "exploration");
     let thorough = args.tier == mck::Tier::Thorough;
-    let (maxlen, pair_len) = if thorough { (5, 4) } else { (4, 3) };
+    let (maxlen, pair_len) = if thorough { (7, 5) } else { (4, 3) };
+    // extension fields: one step less than the base fields
+    let (xl, xp) = if thorough { (5, 4) } else { (4, 3) };
     use f128::BaseElement as B128;
     use f62::BaseElement as B62;
     use f64::BaseElement as B64;
@@ -288,10 +300,10 @@ pub fn run(args: &Args) {
         0 => { let a = vec![B64::ZERO, B64::ONE, B64::new(2), -B64::ONE]; (0, sweep("f64", &a, maxlen, pair_len), format!("{a:?}")) },
         1 => { let a = vec![B62::ZERO, B62::ONE, B62::new(2), -B62::ONE]; (1, sweep("f62", &a, maxlen, pair_len), format!("{a:?}")) },
         2 => { let a = vec![B128::ZERO, B128::ONE, B128::new(2), -B128::ONE]; (2, sweep("f128", &a, maxlen, pair_len), format!("{a:?}")) },
-        3 => { type Q = QuadExtension<B64>; let a = vec![Q::ZERO, Q::ONE, Q::new(B64::ZERO, B64::ONE), -Q::ONE]; (3, sweep("f64^2", &a, maxlen.min(4), pair_len.min(3)), format!("{a:?}")) },
-        4 => { type C = CubeExtension<B64>; let a = vec![C::ZERO, C::ONE, C::new(B64::ZERO, B64::ONE, B64::new(2)), -C::ONE]; (4, sweep("f64^3", &a, maxlen.min(4), pair_len.min(3)), format!("{a:?}")) },
-        5 => { type Q = QuadExtension<B62>; let a = vec![Q::ZERO, Q::ONE, Q::new(B62::ZERO, B62::ONE), -Q::ONE]; (5, sweep("f62^2", &a, maxlen.min(4), pair_len.min(3)), format!("{a:?}")) },
-        _ => { type Q = QuadExtension<B128>; let a = vec![Q::ZERO, Q::ONE, Q::new(B128::ZERO, B128::ONE), -Q::ONE]; (6, sweep("f128^2", &a, maxlen.min(4), pair_len.min(3)), format!("{a:?}")) },
+        3 => { type Q = QuadExtension<B64>; let a = vec![Q::ZERO, Q::ONE, Q::new(B64::ZERO, B64::ONE), -Q::ONE]; (3, sweep("f64^2", &a, xl, xp), format!("{a:?}")) },
+        4 => { type C = CubeExtension<B64>; let a = vec![C::ZERO, C::ONE, C::new(B64::ZERO, B64::ONE, B64::new(2)), -C::ONE]; (4, sweep("f64^3", &a, xl, xp), format!("{a:?}")) },
+        5 => { type Q = QuadExtension<B62>; let a = vec![Q::ZERO, Q::ONE, Q::new(B62::ZERO, B62::ONE), -Q::ONE]; (5, sweep("f62^2", &a, xl, xp), format!("{a:?}")) },
+        _ => { type Q = QuadExtension<B128>; let a = vec![Q::ZERO, Q::ONE, Q::new(B128::ZERO, B128::ONE), -Q::ONE]; (6, sweep("f128^2", &a, xl, xp), format!("{a:?}")) },
     });
     let names = ["f64", "f62", "f128", "f64^2", "f64^3", "f62^2", "f128^2"];
     for (i, s, alpha) in outs {
@@ -304,7 +316,7 @@ pub fn run(args: &Args) {
     report.sample(json!({"function": "interpolate", "xs": "[0, 1, -1]", "ys": "[1, 0, 1]", "oracle": "Lagrange's formula evaluated term by term"}));
     report.sample(json!({"function": "div", "a": "[1, 0, 2, -1]", "b": "[-1, 1]", "oracle": "long division; quotient compared as polynomials"}));
     report.exhaustive = true;
-    report.bounds = json!({"coefficient_alphabet": "{0, 1, 2 (or the extension generator), -1}", "max_vector_length": maxlen, "pairs_up_to_length": pair_len, "fields": names});
+    report.bounds = json!({"coefficient_alphabet": "{0, 1, 2 (or the extension generator), -1} plus, for fields with redundant internal representations (f62 and its extensions), a second representation of 0 and of 1 (vector length then capped at 6, pairs at 4)", "max_vector_length": maxlen, "pairs_up_to_length": pair_len, "extension_fields_max_vector_length": xl, "extension_fields_pairs_up_to_length": xp, "fields": names});
     report.rule = "one case per (function, argument tuple) over the exhaustive vector sets; all distinct; every case is compared with the definitional reference R2, so all are non-trivial".into();
     report.assumptions = vec!["field arithmetic of the elements is the one checked by C10".into(), "mul on empty inputs and div outside its documented preconditions are not called".into()];
     report.finish(args)
